@@ -650,6 +650,21 @@ func genC09(rng *rand.Rand, tier string) (cases []string) {
 		c := c09Case{maxSize: sizes[rng.IntN(len(sizes))], maxCount: counts[rng.IntN(len(counts))],
 			lru: rng.IntN(4) > 0, cb: rng.IntN(3) > 0}
 		c.maxElem = pick(rng, 0, 0, 1, 2, 3, 4, 6, c.maxSize, c.maxSize+3)
+		if rng.IntN(20) == 0 {
+			// limits around the word sizes ("unlimited" spelled as the largest value): never reached,
+			// the cache behaves as with that limit switched off
+			huge := func() uint {
+				return pick(rng, uint(1)<<31, uint(1)<<32, uint(1)<<62, uint(1)<<63-1, uint(1)<<63, uint(1)<<63+1, ^uint(0), ^uint(0)-1)
+			}
+			switch rng.IntN(3) {
+			case 0:
+				c.maxSize = huge()
+			case 1:
+				c.maxCount = huge()
+			default:
+				c.maxElem = huge()
+			}
+		}
 		if i%10 == 0 {
 			// the one configuration the package's own test uses
 			c.maxSize, c.maxElem, c.maxCount, c.lru = 12, 0, 3, true
